@@ -193,6 +193,7 @@ class Module(object):
 
 def get_func(relpath, qualname):
     m = Module.get(relpath)
+    qualname = qualname.split('@')[0]      # 'f@view': a second contract (view) of the same function f, verified on the same body
     if qualname in m.funcs: return m.funcs[qualname]
     # nested function: "outer.<locals>.inner"
     if '.<locals>.' in qualname:
